@@ -369,3 +369,88 @@ Theorem C17_aqt_answer_ok_rejects_gates_alone :
   Forall (fun nc => aqt_answer_ok (fst nc) (snd nc) (Some (job_records (fst nc) (gates_of (snd nc)))) = false) aqt_meas_witnesses.
 Proof. exact aqt_answer_ok_rejects_gates_alone. Qed.
 Print Assumptions C17_aqt_answer_ok_rejects_gates_alone.
+
+(* ---- D6: `control` / `controls` on a gate of the qis gateset (any gate may be listed with control wires) ----
+   what such an op means, which controlled phase gates are Cirq's CZPowGate exactly, and why a controlled rz is not *)
+From VF Require Import Vendor.IonQCtrlProofs.
+
+Theorem C17_ionq_ctrl_x_is_cnot : forall K (O : Ops K), Laws O ->
+  ionq_ctrl_matrix O 1 (ionq_gate_matrix O Nx []) = ionq_gate_matrix O Ncnot [].
+Proof. exact @ionq_ctrl_x_is_cnot. Qed.
+Print Assumptions C17_ionq_ctrl_x_is_cnot.
+
+Theorem C17_ionq_ctrl_nest : forall K (O : Ops K), Laws O -> forall a b c d : K,
+  ionq_ctrl_matrix O 2 [[a; b]; [c; d]] = ionq_ctrl_matrix O 1 (ionq_ctrl_matrix O 1 [[a; b]; [c; d]]).
+Proof. exact @ionq_ctrl_nest. Qed.
+Print Assumptions C17_ionq_ctrl_nest.
+
+Theorem C17_ionq_ctrl_cnot_is_ctrl2_x : forall K (O : Ops K), Laws O ->
+  ionq_ctrl_gate_matrix O 1 Ncnot [] = ionq_ctrl_matrix O 2 (ionq_gate_matrix O Nx []).
+Proof. exact @ionq_ctrl_cnot_is_ctrl2_x. Qed.
+Print Assumptions C17_ionq_ctrl_cnot_is_ctrl2_x.
+
+Theorem C17_ionq_ctrl_z_is_cz : forall K (O : Ops K), Laws O -> forall r rc, kmul O r rc = k1 O ->
+  kmul O r r = kopp O (k1 O) ->
+  gate_model O (GEig ECZPow r rc (k1 O)) = ionq_ctrl_matrix O 1 (ionq_gate_matrix O Nz []).
+Proof. exact @ionq_ctrl_z_is_cz. Qed.
+Print Assumptions C17_ionq_ctrl_z_is_cz.
+
+Theorem C17_ionq_ctrl_s_is_cz_half : forall K (O : Ops K), Laws O -> forall r rc, kmul O r rc = k1 O ->
+  kmul O r r = ki O ->
+  gate_model O (GEig ECZPow r rc (k1 O)) = ionq_ctrl_matrix O 1 (ionq_gate_matrix O Ns []).
+Proof. exact @ionq_ctrl_s_is_cz_half. Qed.
+Print Assumptions C17_ionq_ctrl_s_is_cz_half.
+
+Theorem C17_ionq_ctrl_si_is_cz_mhalf : forall K (O : Ops K), Laws O -> forall r rc, kmul O r rc = k1 O ->
+  kmul O r r = kopp O (ki O) ->
+  gate_model O (GEig ECZPow r rc (k1 O)) = ionq_ctrl_matrix O 1 (ionq_gate_matrix O Nsi []).
+Proof. exact @ionq_ctrl_si_is_cz_mhalf. Qed.
+Print Assumptions C17_ionq_ctrl_si_is_cz_mhalf.
+
+Theorem C17_ionq_ctrl_t_is_cz_quarter : forall K (O : Ops K), Laws O -> forall r rc, kmul O r rc = k1 O ->
+  kmul O r r = kmul O (ks2 O) (kadd O (k1 O) (ki O)) ->
+  gate_model O (GEig ECZPow r rc (k1 O)) = ionq_ctrl_matrix O 1 (ionq_gate_matrix O Nt []).
+Proof. exact @ionq_ctrl_t_is_cz_quarter. Qed.
+Print Assumptions C17_ionq_ctrl_t_is_cz_quarter.
+
+Theorem C17_ionq_ctrl_ti_is_cz_mquarter : forall K (O : Ops K), Laws O -> forall r rc, kmul O r rc = k1 O ->
+  kmul O r r = kmul O (ks2 O) (ksub O (k1 O) (ki O)) ->
+  gate_model O (GEig ECZPow r rc (k1 O)) = ionq_ctrl_matrix O 1 (ionq_gate_matrix O Nti []).
+Proof. exact @ionq_ctrl_ti_is_cz_mquarter. Qed.
+Print Assumptions C17_ionq_ctrl_ti_is_cz_mquarter.
+
+(* controlled rz(pi e) = (Z**(-e/2) on the control) . CZ**e, for every exponent *)
+Theorem C17_ionq_ctrl_rz_decomp : forall K (O : Ops K), Laws O -> forall r rc, kmul O r rc = k1 O ->
+  ionq_ctrl_matrix O 1 (ionq_gate_matrix O Nrz [r; rc])
+  = mmul O (mdiag O [k1 O; k1 O; rc; rc]) (gate_model O (GEig ECZPow r rc (k1 O))).
+Proof. exact @ionq_ctrl_rz_decomp. Qed.
+Print Assumptions C17_ionq_ctrl_rz_decomp.
+
+(* ... so it is a scalar multiple of CZ**e (any global shift g, any factor f) only if exp(i pi e/2) = 1 *)
+Theorem C17_ionq_ctrl_rz_is_czpow_only_if : forall K (O : Ops K), Laws O -> forall r rc g, kmul O r rc = k1 O -> forall f,
+  ionq_ctrl_matrix O 1 (ionq_gate_matrix O Nrz [r; rc]) = mscale O f (gate_model O (GEig ECZPow r rc g)) ->
+  r = k1 O.
+Proof. exact @ionq_ctrl_rz_is_czpow_only_if. Qed.
+Print Assumptions C17_ionq_ctrl_rz_is_czpow_only_if.
+
+Example C17_ionq_ctrl_rz_is_czpow_trivial_case :
+  ionq_ctrl_matrix K8Ops 1 (ionq_gate_matrix K8Ops Nrz [k1 K8Ops; k1 K8Ops])
+  = mscale K8Ops (k1 K8Ops) (gate_model K8Ops (GEig ECZPow (k1 K8Ops) (k1 K8Ops) (k1 K8Ops))).
+Proof. exact ionq_ctrl_rz_is_czpow_trivial_case. Qed.
+
+(* "a controlled rz(pi e) encodes CZ**e up to phase" is refuted at e = 1/2 (r = zeta_8); the witness circuit
+   CZ**0.5 is replayed on the implementation by the edge stream of the check, which must refuse it or send controlled s *)
+Theorem C17_ionq_ctrl_rz_is_czpow_refuted : exists r rc : K8,
+  kmul K8Ops r rc = k1 K8Ops /\ kmul K8Ops r r = ki K8Ops
+  /\ forall f g, ionq_ctrl_matrix K8Ops 1 (ionq_gate_matrix K8Ops Nrz [r; rc]) <> mscale K8Ops f (gate_model K8Ops (GEig ECZPow r rc g)).
+Proof. exact ionq_ctrl_rz_is_czpow_refuted. Qed.
+Print Assumptions C17_ionq_ctrl_rz_is_czpow_refuted.
+
+Example C17_ionq_op_ctrl_z_example :
+  ionq_op_gop K8Ops false 2 (IGate "z"%string [] [0%nat] [1%nat])
+  = Some (GMat [2%nat; 2%nat] (ionq_ctrl_matrix K8Ops 1 (ionq_gate_matrix K8Ops Nz [])), [0%nat; 1%nat])
+  /\ ionq_op_gop K8Ops true 2 (IGate "gpi"%string [k1 K8Ops; k1 K8Ops] [0%nat] [1%nat]) = None
+  /\ ionq_op_gop K8Ops false 2 (IGate "cnot"%string [] [0%nat] [1%nat])
+     = Some (GMat [2%nat; 2%nat] (ionq_gate_matrix K8Ops Ncnot []), [0%nat; 1%nat])
+  /\ ionq_op_gop K8Ops false 2 (IGate "cnot"%string [] [] [1%nat]) = None.
+Proof. exact ionq_op_ctrl_z_example. Qed.
